@@ -2,6 +2,7 @@ import CwMt.Model.Registry
 import CwMt.Model.Executor
 import CwMt.Model.Address
 import CwMt.Model.Staking
+import CwMt.Model.Flat
 import CwMt.Driver.Util
 /-
   Line-protocol front end of the `wasm` slice: s-expressions, the scripted contract (the Lean twin
@@ -854,6 +855,7 @@ def stepWasm (st : WState) (line : String) : WState × String :=
       | none => (st, "bad-op")
     | "dump" => (st, fmtDump app)
     | "rawhash" => (st, "!")
+    | "rawdump" => (st, "raw" ++ fmtRecords (Flat.flatten app.ch))
     | "nondet" => (st, "!")       -- verdict slot of slice wasm-bech-mix (implementation-only)
     | "trace" =>
       (setApp st { app with trace := [] }, "trace[" ++ " || ".intercalate app.trace ++ "]")
